@@ -112,6 +112,8 @@ def run(ctx):
         # Lean spec on a few small beats (validates the Python transcription of the spec)
         small = [b for b in pr if b <= 8][:3]
         plist += [["spec_time", frac(b), t] for b in small for t in ("STOP", "DELAY_END", "WARP")]
+        # the proved float-error bound (Props/C11Float.time_error, u = 2^-53) for every probed beat under two tags
+        plist += [["err_time", frac(b), t] for b in pr for t in ("STOP", "STOP_END")]
         reqs.append({"op": "engine.probe", "td": gen.td_json(td), "probes": plist})
         metas.append((kind, td, pr, small))
     resp = ctx.lean.eval_sharded(reqs, shards=16)
@@ -158,6 +160,19 @@ def run(ctx):
                 lean_spec = unfrac(out[i]); i += 1
                 if lean_spec != spec.time(b, t):
                     res.tie_break("spec.time (Lean spec vs its Python transcription)", dict(case, beat=str(b), tag=t), str(spec.time(b, t)), str(lean_spec))
+        # the float engine stays within the proved bound of the exact timeline (C11F.time_error): the impl's double is an
+        # exact rational, so this comparison is exact
+        for b in pr:
+            for t in ("STOP", "STOP_END"):
+                bound = unfrac(out[i]); i += 1
+                dev = abs(Fraction(times[(b, t)]) - spec.time(b, t))
+                res.count("float_bound_checked")
+                if bound > 0:
+                    res.stats["float_max_deviation_over_bound"] = max(res.stats.get("float_max_deviation_over_bound", 0.0), float(dev / bound))
+                    res.stats["float_max_bound_s"] = max(res.stats.get("float_max_bound_s", 0.0), float(bound))
+                if dev > bound:
+                    res.tie_break("engine.float_bound (impl deviates from the exact timeline by more than errTimeAt)",
+                                  dict(case, beat=str(b), tag=t), float(dev), float(bound))
         # monotone in (beat, tag)
         order = sorted(times, key=lambda k: (k[0], tag_order.index(k[1])))
         for a, b2 in zip(order, order[1:]):
@@ -181,6 +196,6 @@ def run(ctx):
         for (b, t) in order[:: max(1, len(order) // 25)]:
             if abs(float(e3.time_at(Beat(b), EventTag[t])) - times[(b, t)]) > TOL or e3.bpm_at(Beat(b)) != e.bpm_at(Beat(b)):
                 res.violation(case, "inserting a BPM change that repeats the BPM in force changes an answer", inserted=[str(x) for x in xs], beat=str(b), tag=t); break
-    res.assumptions = ["IEEE-754 arithmetic of the engine is not modelled: impl floats are compared with exact rationals within 1e-9 s",
+    res.assumptions = ["IEEE-754 arithmetic: Model/EngineF.lean makes every rounding of time_until/advance/time_at explicit and C11F.time_error bounds |time_atF - time_at| by errTimeAt under the standard model (u = 2^-53); the impl's doubles are checked against that bound exactly on every run (stats float_*), and against the exact timeline within 1e-9 s",
                        "heapq.merge / bisect are modelled (merge of sorted lists, Python's bisect loop verbatim)"]
     return res
